@@ -172,6 +172,67 @@ pub fn gen_f32_corner(r: &mut Rng) -> Inst {
     Inst { courses, parts, rooms: Some(vec![room, second]) }
 }
 
+/// An instance aimed at the other f32 corner: `factor * n` is an exact integer in f32 although the
+/// f32 factor, read as a real number, lies slightly above its decimal value (1.2f32 * 5 = 6.0 but
+/// 1.2f32 as f64 * 5 = 6.0000002). Course A can become exactly `n` people; B stays small, so the
+/// largest effective size any course can reach is A's.
+pub fn gen_f32_exact_product(r: &mut Rng) -> Inst {
+    let factors = [1.2f32, 1.1, 1.3, 2.7, 0.7, 3.3, 1.6, 2.2];
+    let mut cands: Vec<(f32, usize)> = vec![];
+    for f in factors.iter() {
+        for n in 3..12usize {
+            let p = *f * n as f32;
+            if p == p.round() && (*f as f64) * (n as f64) > p as f64 {
+                cands.push((*f, n));
+            }
+        }
+    }
+    let (f, n) = cands[r.usize(cands.len())];
+    let np = n + 1 + r.usize(2);
+    let courses = vec![
+        CourseDump { index: 0, dbid: 100, name: "A".into(), num_min: r.usize(2), num_max: n, instructors: vec![],
+            room_factor: f, room_offset: 0.0, fixed_course: false, hidden_participant_names: vec![] },
+        CourseDump { index: 1, dbid: 101, name: "B".into(), num_min: 0, num_max: 2, instructors: vec![],
+            room_factor: 1.0, room_offset: 0.0, fixed_course: false, hidden_participant_names: vec![] },
+    ];
+    let parts: Vec<ParticipantDump> = (0..np)
+        .map(|i| ParticipantDump { index: i, dbid: 1000 + i, name: format!("p{}", i), choices: vec![(0, 0), (1, 1)] })
+        .collect();
+    Inst { courses, parts, rooms: None }
+}
+
+/// post-processing dial: an unpopular FIXED course with a minimum, and a tiny last room, so that a
+/// room conflict arises at a room smaller than the fixed course's minimum size
+pub fn make_fixed_unpopular(r: &mut Rng, inst: &mut Inst) {
+    let nc = inst.courses.len();
+    if nc < 2 {
+        return;
+    }
+    let f = r.usize(nc);
+    inst.courses[f].fixed_course = true;
+    inst.courses[f].num_min = 2 + r.usize(2);
+    inst.courses[f].num_max = inst.courses[f].num_max.max(inst.courses[f].num_min + r.usize(3));
+    inst.courses[f].room_factor = 1.0;
+    // few people want it
+    let mut keep = 1 + r.usize(3);
+    for p in inst.parts.iter_mut() {
+        if p.choices.len() > 1 {
+            if keep == 0 {
+                p.choices.retain(|(c, _)| *c != f);
+            } else if p.choices.iter().any(|(c, _)| *c == f) {
+                keep -= 1;
+            }
+        }
+    }
+    let big = 10 + r.usize(10);
+    let mut rooms = vec![big; nc - 1];
+    rooms.push(r.usize(2));
+    if r.chance(1, 2) && nc >= 3 {
+        rooms[nc - 2] = 1 + r.usize(2);
+    }
+    inst.rooms = Some(rooms);
+}
+
 #[derive(Clone, Debug)]
 pub struct Matrix {
     pub nx: usize,
